@@ -1574,6 +1574,8 @@ class Interp:
     # external / builtin summaries
     def call_external(self, name: str, args, kwargs, st: State, node) -> list[Out]:
         short = name.split(".")[-1]
+        if name in ("typing.cast", "typing_extensions.cast") and len(args) == 2:
+            return self.val(st, args[1])
         if name in ("functools.partial", "partial") and args:
             return self.val(st, _PartialV(args[0], args[1:], kwargs))
         if name in ("operator.mul", "operator.add", "operator.sub", "_operator.mul") and len(args) == 2:
